@@ -8,7 +8,7 @@ package redisemu
 //     \x       the character x, without special meaning
 //
 // A nil pattern matches everything.
-func redisGlob(pattern, candidate []rune) bool {
+func redisGlob(pattern, candidate []byte) bool {
 	if pattern == nil {
 		return true
 	}
